@@ -25,7 +25,7 @@ def run_case(name, lines, harness=None, leaks=False):
         f.write("\n".join(lines) + "\n")
     env = dict(os.environ, ASAN_OPTIONS="detect_leaks=%d:abort_on_error=0" % (1 if leaks else 0), UBSAN_OPTIONS="print_stacktrace=0")
     try:
-        a = subprocess.run([harness or HARNESS, path], stdout=subprocess.PIPE, stderr=subprocess.PIPE, text=True, timeout=10, env=env)
+        a = subprocess.run([harness or HARNESS, path], stdout=subprocess.PIPE, stderr=subprocess.PIPE, text=True, timeout=50, env=env)
         out, err, rc = a.stdout, a.stderr, a.returncode
     except subprocess.TimeoutExpired as e:
         out = e.stdout.decode() if isinstance(e.stdout, bytes) else (e.stdout or "")
@@ -35,7 +35,7 @@ def run_case(name, lines, harness=None, leaks=False):
     r = CaseResult()
     r.name, r.lines, r.log, r.rc = name, lines, out, rc
     r.san = common.san_line(err) if rc != 0 else ""
-    if rc in (-14, -9) and not r.san:
+    if rc in (-14, -27, -9) and not r.san:
         r.san = "TIMEOUT: the library did not return (killed by the harness watchdog)"
     if rc != 0 and not r.san:
         r.san = "harness exit %d %s" % (rc, err.strip().splitlines()[-1][:160] if err.strip() else "")
